@@ -215,6 +215,13 @@ class _N5(ast.NodeTransformer):
         if d in _RENAME:
             n.func = ast.copy_location(_parse_dotted(_RENAME[d]), n.func)
             return n
+        if d == "np.full" and len(n.args) == 2 and not any(isinstance(a, ast.Starred) for a in n.args):
+            ones = ast.Call(func=_parse_dotted("np.ones"), args=[n.args[0]], keywords=n.keywords)
+            return ast.copy_location(ast.BinOp(left=n.args[1], op=ast.Mult(), right=ones), n)
+        if d in ("np.tile", "np.repeat") and n.args and isinstance(n.args[0], ast.Call) and _dotted(n.args[0].func) in ("np.array", "np.asarray") \
+                and len(n.args[0].args) == 1 and not n.args[0].keywords and isinstance(n.args[0].args[0], (ast.List, ast.Tuple)):
+            n.args[0] = n.args[0].args[0]
+            return n
         if d == "np.eye" and len(n.args) == 1 and not n.keywords:
             return ast.copy_location(ast.parse(f"np.diag(np.ones({ast.unparse(n.args[0])}))", mode="eval").body, n)
         if d in ("np.concatenate", "np.hstack", "np.vstack", "np.stack") and n.args and isinstance(n.args[0], ast.List):
@@ -242,6 +249,20 @@ class _N5(ast.NodeTransformer):
             if a in _METHOD_TO_FUNC and not (isinstance(recv, ast.Name) and recv.id in ("self", "cls", "super")) and not isinstance(recv, ast.Constant) \
                     and not (isinstance(recv, ast.Call) and isinstance(recv.func, ast.Name) and recv.func.id == "super"):
                 return ast.copy_location(ast.Call(func=_parse_dotted(_METHOD_TO_FUNC[a]), args=[recv] + n.args, keywords=n.keywords), n)
+        return n
+
+    def visit_Attribute(self, n):
+        self.generic_visit(n)
+        if n.attr == "newaxis" and isinstance(n.value, ast.Name) and n.value.id in ("np", "numpy"):
+            return ast.copy_location(ast.Constant(value=None), n)
+        return n
+
+    def visit_BinOp(self, n):
+        self.generic_visit(n)
+        # (a, b) + t  ->  (a, b, *t)
+        if isinstance(n.op, ast.Add) and isinstance(n.left, ast.Tuple) and not isinstance(n.right, ast.Constant):
+            right = n.right.elts if isinstance(n.right, ast.Tuple) else [ast.Starred(value=n.right, ctx=ast.Load())]
+            return ast.copy_location(ast.Tuple(elts=list(n.left.elts) + list(right), ctx=ast.Load()), n)
         return n
 
     def visit_Subscript(self, n):
@@ -291,6 +312,7 @@ def _n6(tree):
                 except Exception:
                     pass
         nested_names = {x.id for n in ast.walk(fn) if isinstance(n, (ast.FunctionDef, ast.AsyncFunctionDef, ast.Lambda)) and n is not fn for x in ast.walk(n) if isinstance(x, ast.Name)}
+        rebound = {x.id for x in ast.walk(fn) if isinstance(x, ast.Name) and isinstance(x.ctx, (ast.Store, ast.Del))}
         alias = {}
         for node in ast.walk(fn):
             for fld, lst in _blocks(node):
@@ -301,7 +323,7 @@ def _n6(tree):
                         while isinstance(root, ast.Attribute):
                             root = root.value
                         path = ast.unparse(st.value)
-                        if stores.get(t, 0) == 1 and t not in params and t not in nested_names and (root.id == "self" or root.id in params) and stores.get(root.id, 0) <= 2 \
+                        if stores.get(t, 0) == 1 and t not in params and t not in nested_names and (root.id == "self" or root.id in params) and root.id not in rebound \
                                 and not any(path == sp or path.startswith(sp + ".") or sp.startswith(path + ".") for sp in stored_paths):
                             alias[t] = (st, st.value)
         if not alias:
